@@ -18,7 +18,7 @@ pub struct Case {
     pub frames: usize, // base/tool isometry choice
     pub layout: usize,
     pub safety: usize, // 0 touch, 1 3 cm
-    pub limits: usize, // 0 wide, 1 window, 2 window with hand-set centres / tolerances (public fields), 3 J4/J6 ranges that wrap, 4 J6 unconstrained (from == to)
+    pub limits: usize, // 0 wide, 1 window, 2 window with hand-set centres / tolerances (public fields), 3 J4/J6 ranges that wrap, 4 J6 unconstrained (from == to), 5 wider than half a turn on every joint
     pub q: Joints,
 }
 
@@ -56,6 +56,9 @@ pub(crate) fn cell_for(c: &Case) -> CellDesc {
     } else if c.limits == 3 {
         // J4 and J6 ranges wrap through pi (from > to): allowed |x| >= 1.5 on J6
         Limits { from: [-3.1, -3.1, -3.1, 2.0, -3.1, 1.5], to: [3.1, 3.1, 3.1, -2.0, 3.1, -1.5], weight: 0.0 }
+    } else if c.limits == 5 {
+        // beyond half a turn on every joint: nothing the solver finds is ever out of range
+        Limits { from: [-3.3; 6], to: [3.3; 6], weight: 0.0 }
     } else if c.limits == 4 {
         Limits { from: [-3.1, -3.1, -3.1, -3.1, -3.1, 0.7], to: [3.1, 3.1, 3.1, 3.1, 3.1, 0.7], weight: 0.25 }
     } else {
@@ -308,6 +311,40 @@ pub fn run(ctx: &Ctx) -> Report {
             r.fail(k, idx, case_json(&c), d);
         }
     });
+    // --- more answers than the usual eight: next to the wrist singularity (J5 inside the 0.01 degree band but not zero) the
+    // continuing entry point of the underlying stack adds answers that keep J4/J6 of the previous vector. J5 runs over a
+    // magnitude ladder on both sides of 0; obstacles that block some arm branches and leave others free
+    let near_sing: Vec<Joints> = {
+        let mut v = Vec::new();
+        for base in [[0.8, 0.4, 1.5, 0.3, 0.0, 0.2], [0.5, -0.3, 0.9, 1.0, 0.0, -0.4], [-0.6, 0.0, 1.9, -0.6, 0.0, 0.3]] {
+            for m in [1e-7, 1e-6, 1e-5, 5e-5, 1e-4, 1.6e-4] {
+                for sgn in [1.0, -1.0] {
+                    let mut q = base;
+                    q[4] = sgn * m;
+                    v.push(q);
+                }
+            }
+        }
+        v
+    };
+    let slayouts = [2usize, 11, 12, 3];
+    let ssizes = [4, 2, slayouts.len(), 2, near_sing.len()];
+    let sn = par::product(&ssizes);
+    let srep = par::run(sn, |idx, r| {
+        let mut ix = [0usize; 5];
+        par::decode(idx, &ssizes, &mut ix);
+        let c = Case { ctor: ix[0], frames: [0, 2][ix[1]], layout: slayouts[ix[2]], safety: 0, limits: [5, 0][ix[3]], q: near_sing[ix[4]] };
+        let (fails, sig) = eval(&c);
+        r.states += 1;
+        r.transitions += 12;
+        r.sig(format!("near-singular:{sig}"));
+        for (k, d) in fails {
+            r.fail(format!("{k}/near-singular"), n + idx, case_json(&c), d);
+        }
+    });
+    rep.merge(srep);
+    let most = rep.signatures.iter().filter_map(|s| s.split("of").nth(1).and_then(|t| t.split(':').next()).and_then(|t| t.parse::<usize>().ok())).max().unwrap_or(0);
+    rep.set("largest_underlying_answer_list", json!(most));
     let partial = rep.signatures.iter().any(|s| {
         s.split("kept").nth(1).and_then(|t| {
             let mut it = t.split(':').next().unwrap_or("").split("of");
@@ -322,7 +359,7 @@ pub fn run(ctx: &Ctx) -> Report {
     }
     rep.traces_validated = rep.transitions;
     rep.rule = "constructors {new(first only), new(all), with_safety, with_safety(no check) followed by assigning the safety table through the public field} x base/tool isometries {identity, shifted, rotated} x environments {free, near, blocking \
-                slab/wall/cage, ...} x safety {touch, 3 cm} x limits {wide, window+weight with off-zero centres, window with hand-set centres/tolerances, wrapping J4/J6 ranges, J6 unconstrained} x J6 arguments {0.4, 2.9, 0.4 + 2 pi} x postures x four inverse entry points x previous {near the solution, CONSTRAINT_CENTERED, far out, each answer of the underlying stack itself}; oracle (differential): answers \
+                slab/wall/cage, ...} x safety {touch, 3 cm} x limits {wide, window+weight with off-zero centres, window with hand-set centres/tolerances, wrapping J4/J6 ranges, J6 unconstrained} x J6 arguments {0.4, 2.9, 0.4 + 2 pi} x postures x four inverse entry points x previous {near the solution, CONSTRAINT_CENTERED, far out, each answer of the underlying stack itself}; plus a sweep of J5 = +-{1e-7 .. 1.6e-4} (inside the singularity band, where the underlying continuing entry point returns more than eight answers) x 3 postures x 4 environments; oracle (differential): answers \
                 == ordered filter of the underlying stack's answers by an empty collision_details, bit-equal, while a second robot (same environment size, obstacles moved / other safety) is asked about the first candidate just before each call; forward, link poses, singularity bit-equal to the underlying stack (tool over base over the limited robot, built independently from the same pieces); \
                 stack == base*FK_ref*tool with the given limits; positioned_robot == link poses cast to f32, tool on link 6, environment passed through; \
                 signature = (constructor, kept k of n)".into();
